@@ -24,6 +24,7 @@ type Explorer struct {
 	Fallbacks []string
 	MaxPaths  int
 	Deadline  time.Time
+	FPSolver  string // incremental solver used for queries containing floating point ("" = same)
 	WantModel bool // sample a model + observations per completed path (for the cross-check)
 
 	mu       sync.Mutex
@@ -128,7 +129,20 @@ func (ex *Explorer) Run() error {
 				return
 			}
 			defer solver.Close()
-			m := &Machine{P: ex.P, tt: NewTermTable(), solver: solver, lim: ex.Lim, ex: ex, fnInfos: map[*ssa.Function]*fnInfo{}}
+			var m *Machine
+			defer func() {
+				if m != nil && m.fpSolver != nil {
+					ex.mu.Lock()
+					ex.Stats.Queries += m.fpSolver.Stats.Queries
+					ex.Stats.Sat += m.fpSolver.Stats.Sat
+					ex.Stats.Unsat += m.fpSolver.Stats.Unsat
+					ex.Stats.Unknown += m.fpSolver.Stats.Unknown
+					ex.Stats.Time += m.fpSolver.Stats.Time
+					ex.mu.Unlock()
+					m.fpSolver.Close()
+				}
+			}()
+			m = &Machine{P: ex.P, tt: NewTermTable(), solver: solver, lim: ex.Lim, ex: ex, fnInfos: map[*ssa.Function]*fnInfo{}}
 			for {
 				prefix, ok := ex.take()
 				if !ok {
@@ -140,6 +154,9 @@ func (ex *Explorer) Run() error {
 				if m.tt.nextID > 3000000 {
 					m.tt = NewTermTable()
 					solver.restart()
+					if m.fpSolver != nil {
+						m.fpSolver.restart()
+					}
 				}
 			}
 			ex.mu.Lock()
@@ -176,6 +193,9 @@ func lessDecs(a, b []int64) bool {
 // RunPath executes the harness once along the given decision prefix.
 func (m *Machine) RunPath(h *ssa.Function, prefix []int64, wantModel bool) (res *PathResult) {
 	m.solver.MaybeRestart()
+	if m.fpSolver != nil {
+		m.fpSolver.MaybeRestart()
+	}
 	m.resetPath(prefix)
 	m.harness = h.Name()
 	res = &PathResult{End: "ok"}
